@@ -22,6 +22,7 @@ for name in sys.argv[1:]:
         for p in props:
             r = subprocess.run(["/venv/bin/python", os.path.join(here, "tools", "check.py"), p], capture_output=True, text=True, cwd=here, env=env)
             lines = [l for l in r.stdout.split("\n") if l.startswith(("VIOLATION", "OK "))]
-            print(name, p, r.returncode, (lines[-1] if lines else (r.stdout + r.stderr)[-200:])[:150], flush=True)
+            deg = " TIE-DEGRADED" if any(l.startswith("TIE-DEGRADED") for l in r.stdout.split("\n")) else ""
+            print(name, p, r.returncode, (lines[-1] if lines else (r.stdout + r.stderr)[-200:])[:150] + deg, flush=True)
     finally:
         subprocess.run(["git", "-C", repo, "checkout", "--", "."])
